@@ -498,7 +498,8 @@ P.OBS["C08"] = obs_C08
 
 # ---------------------------------------------------------------------------------------------
 # C16: pairs of grids (mirror images, field reversals)
-C16_VARS = ["psixy", "hy", "Bpxy", "Btxy", "Bxy", "Brxy", "Bzxy", "J", "dx", "g11", "g22", "g33", "g23", "g_11", "g_22", "g_33", "g_23", "dphidy", "zShift"]
+C16_VARS = ["psixy", "hy", "Bpxy", "Btxy", "Bxy", "Brxy", "Bzxy", "J", "dx", "g11", "g22", "g33", "g23", "g_11", "g_22", "g_33", "g_23", "dphidy", "zShift",
+            "curl_bOverB_x", "curl_bOverB_y", "curl_bOverB_z", "bxcvx", "bxcvy", "bxcvz", "ShiftTorsion"]
 
 
 def obs_C16_pair(gA, gB, kind, out):
